@@ -125,3 +125,57 @@ spec fn types_pre_of(a: ast::Aidl) -> Seq<ast::Type> {
         ast::Item::Enum(_) => Seq::<ast::Type>::empty(),
     }
 }
+
+// ---- what the mutable type walker does to a tree: every type node is replaced as the callback's step allows, its
+// children likewise; nothing else changes. `step` relates a node as offered to the node as the callback leaves it
+// (the callback keeps the children, so the node as left is the final node with the offered children put back). ----
+spec fn type_rel(step: spec_fn(ast::Type, ast::Type) -> bool, o: ast::Type, n: ast::Type) -> bool
+    decreases o
+{
+    step(o, ast::Type { generic_types: o.generic_types, ..n }) && n.generic_types@.len() == o.generic_types@.len()
+    && forall |i: int| 0 <= i < o.generic_types@.len() ==> type_rel(step, #[trigger] o.generic_types@[i], n.generic_types@[i])
+}
+spec fn arg_rel(step: spec_fn(ast::Type, ast::Type) -> bool, o: ast::Arg, n: ast::Arg) -> bool {
+    n == (ast::Arg { arg_type: n.arg_type, ..o }) && type_rel(step, o.arg_type, n.arg_type)
+}
+spec fn method_rel(step: spec_fn(ast::Type, ast::Type) -> bool, o: ast::Method, n: ast::Method) -> bool {
+    &&& n == (ast::Method { return_type: n.return_type, args: n.args, ..o })
+    &&& type_rel(step, o.return_type, n.return_type)
+    &&& n.args@.len() == o.args@.len()
+    &&& forall |j: int| 0 <= j < o.args@.len() ==> arg_rel(step, #[trigger] o.args@[j], n.args@[j])
+}
+spec fn const_rel(step: spec_fn(ast::Type, ast::Type) -> bool, o: ast::Const, n: ast::Const) -> bool {
+    n == (ast::Const { const_type: n.const_type, ..o }) && type_rel(step, o.const_type, n.const_type)
+}
+spec fn field_rel(step: spec_fn(ast::Type, ast::Type) -> bool, o: ast::Field, n: ast::Field) -> bool {
+    n == (ast::Field { field_type: n.field_type, ..o }) && type_rel(step, o.field_type, n.field_type)
+}
+spec fn iface_el_rel(step: spec_fn(ast::Type, ast::Type) -> bool, o: ast::InterfaceElement, n: ast::InterfaceElement) -> bool {
+    match (o, n) {
+        (ast::InterfaceElement::Method(a), ast::InterfaceElement::Method(b)) => method_rel(step, a, b),
+        (ast::InterfaceElement::Const(a), ast::InterfaceElement::Const(b)) => const_rel(step, a, b),
+        _ => false,
+    }
+}
+spec fn parc_el_rel(step: spec_fn(ast::Type, ast::Type) -> bool, o: ast::ParcelableElement, n: ast::ParcelableElement) -> bool {
+    match (o, n) {
+        (ast::ParcelableElement::Field(a), ast::ParcelableElement::Field(b)) => field_rel(step, a, b),
+        (ast::ParcelableElement::Const(a), ast::ParcelableElement::Const(b)) => const_rel(step, a, b),
+        _ => false,
+    }
+}
+spec fn item_rel(step: spec_fn(ast::Type, ast::Type) -> bool, o: ast::Item, n: ast::Item) -> bool {
+    match (o, n) {
+        (ast::Item::Interface(a), ast::Item::Interface(b)) =>
+            b == (ast::Interface { elements: b.elements, ..a }) && b.elements@.len() == a.elements@.len()
+            && forall |k: int| 0 <= k < a.elements@.len() ==> iface_el_rel(step, #[trigger] a.elements@[k], b.elements@[k]),
+        (ast::Item::Parcelable(a), ast::Item::Parcelable(b)) =>
+            b == (ast::Parcelable { elements: b.elements, ..a }) && b.elements@.len() == a.elements@.len()
+            && forall |k: int| 0 <= k < a.elements@.len() ==> parc_el_rel(step, #[trigger] a.elements@[k], b.elements@[k]),
+        (ast::Item::Enum(a), ast::Item::Enum(b)) => a == b,
+        _ => false,
+    }
+}
+spec fn aidl_rel(step: spec_fn(ast::Type, ast::Type) -> bool, o: ast::Aidl, n: ast::Aidl) -> bool {
+    n == (ast::Aidl { item: n.item, ..o }) && item_rel(step, o.item, n.item)
+}
